@@ -10,6 +10,7 @@ use crate::seams::{self, Act, Plan};
 use crate::supervise::{CaseResult, Violation};
 use crate::workload::*;
 use garble_lang::circuit::{Circuit, PANIC_RESULT_SIZE_IN_BITS};
+use garble_lang::circuit_type::CircuitType;
 use serde::{Deserialize, Serialize};
 use std::collections::{BTreeMap, BTreeSet};
 
@@ -258,6 +259,10 @@ pub struct World {
     /// reader consumed is gone for the next `open`
     #[serde(default)]
     pub pipe: bool,
+    /// export + import by a process built with default cargo features in release mode, on a real
+    /// scratch file (no faults there: the simulated disk belongs to this build)
+    #[serde(default)]
+    pub plain_build: bool,
     /// history of the *process*: worlds the same thread ran through earlier (a long-lived
     /// exporter/importer). Their own verdicts are not judged here.
     #[serde(default)]
@@ -985,7 +990,7 @@ fn run_world_in_child(w: &World) -> Obs {
     use std::io::Write;
     let mut obs = Obs::default();
     let Ok(exe) = std::env::current_exe() else { return obs };
-    let Ok(mut child) = std::process::Command::new(exe)
+    let Ok(mut child) = child_command(exe)
         .arg("c11-child")
         .env("RUST_BACKTRACE", "0")
         .stdin(std::process::Stdio::piped())
@@ -1020,6 +1025,82 @@ fn run_world_in_child(w: &World) -> Obs {
     obs.nontrivial = true;
     bump(&mut obs.counters, "environment_flipped_processes");
     obs
+}
+
+/// Export and import `c` in a process built with default cargo features in release mode.
+fn plain_roundtrip(c: &Circuit, ref_bytes: &[u8], seedtag: u64, idx: u64, counters: &mut BTreeMap<String, u64>) -> Vec<Finding> {
+    use std::io::Write;
+    let mut out = vec![];
+    let Some(exe) = plain_bin() else {
+        *counters.entry("plain_build_unavailable".into()).or_insert(0) += 1;
+        return out;
+    };
+    let dir = verif_dir().join("sim/target/run");
+    let _ = std::fs::create_dir_all(&dir);
+    let scratch = dir.join(format!("plain-{}-{idx}.bristol.txt", std::process::id()));
+    let Ok(mut child) = child_command(&exe)
+        .arg("bristol")
+        .arg(&scratch)
+        .stdin(std::process::Stdio::piped())
+        .stdout(std::process::Stdio::piped())
+        .stderr(std::process::Stdio::null())
+        .spawn()
+    else {
+        return out;
+    };
+    let mut line = String::from("S");
+    for x in flatten(&CircuitType::Ssa(c.clone())) {
+        line.push(' ');
+        line.push_str(&x.to_string());
+    }
+    line.push('\n');
+    let mut stdin = child.stdin.take().unwrap();
+    let writer = std::thread::spawn(move || {
+        let _ = stdin.write_all(line.as_bytes());
+    });
+    let Ok(res) = child.wait_with_output() else { return out };
+    let _ = writer.join();
+    let _ = std::fs::remove_file(&scratch);
+    *counters.entry("plain_build_roundtrips".into()).or_insert(0) += 1;
+    let text = String::from_utf8_lossy(&res.stdout).to_string();
+    let export = text.lines().find_map(|l| l.strip_prefix("EXPORT ")).unwrap_or("");
+    let bytes_hex = text.lines().find_map(|l| l.strip_prefix("BYTES ")).unwrap_or("");
+    let import = text.lines().find_map(|l| l.strip_prefix("IMPORT ")).unwrap_or("");
+    let tagb = "default_features_release_build";
+    if export.is_empty() || import.is_empty() {
+        out.push(finding("process_died", tagb, format!("exporter/importer built with default cargo features in release mode died ({})", res.status)));
+        return out;
+    }
+    if let Some(m) = export.strip_prefix("panic ") {
+        out.push(finding("export_panicked", tagb, format!("format_as_bristol panicked in a process built with default cargo features in release mode: {m}")));
+        return out;
+    }
+    if let Some(e) = export.strip_prefix("err ") {
+        out.push(finding("export_failed_without_fault", tagb, format!("format_as_bristol failed on a healthy file system in a process built with default cargo features in release mode: {e}")));
+        return out;
+    }
+    let bytes: Vec<u8> = (0..bytes_hex.len() / 2).filter_map(|i| u8::from_str_radix(&bytes_hex[2 * i..2 * i + 2], 16).ok()).collect();
+    if bytes != ref_bytes {
+        out.push(finding("export_ok_but_incomplete", tagb, format!("export returned Ok in a process built with default cargo features in release mode, but the file ({} bytes) differs from the fault-free export of this build ({} bytes)", bytes.len(), ref_bytes.len())));
+    }
+    if let Some(m) = import.strip_prefix("panic ") {
+        out.push(finding("import_panicked", tagb, format!("bristol_to_garble panicked in a process built with default cargo features in release mode: {m}")));
+    } else if let Some(e) = import.strip_prefix("err ") {
+        if bytes == ref_bytes {
+            out.push(finding("import_failed_without_fault", tagb, format!("importing an intact export failed in a process built with default cargo features in release mode: {e}")));
+        }
+    } else if let Some(rest) = import.strip_prefix("ok S ") {
+        let flat: Vec<u64> = rest.split_ascii_whitespace().filter_map(|t| t.parse().ok()).collect();
+        match unflatten('S', &flat) {
+            Some(CircuitType::Ssa(ic)) if bytes == ref_bytes => {
+                if let Err(e) = function_equal(c, &ic, seedtag) {
+                    out.push(finding("roundtrip_function_differs", tagb, format!("export + import in a process built with default cargo features in release mode: {e}")));
+                }
+            }
+            _ => {}
+        }
+    }
+    out
 }
 
 pub fn run_world(w: &World) -> Obs {
@@ -1093,6 +1174,9 @@ fn draw_subject(plan: &CasePlan, p: &mut Prng, allow_corpus: bool) -> ProgSpec {
                 return ProgSpec { name: e.name.clone(), src: e.src.clone(), consts: vec![] };
             }
         }
+    }
+    if p.chance(1, 5) {
+        return ProgSpec { name: "layout".into(), src: gen::layout_program(p), consts: vec![] };
     }
     ProgSpec { name: "small".into(), src: gen::small_program(p), consts: vec![] }
 }
@@ -1333,7 +1417,7 @@ static NSYNC_OF_LAST_REFERENCE: std::sync::atomic::AtomicU64 = std::sync::atomic
 
 fn reference_export(prog: &ProgSpec, dedup: bool, keys: Keys) -> Option<(Vec<u8>, u64, u64)> {
     // fault-free export to learn the size of the search space (write count, bytes)
-    let w = World { program: Some(prog.clone()), dedup, keys, export_plan: Plan::default(), corruptions: vec![], import_plan: Plan::default(), via_lib: false, s5: None, raw_text: None, prior: vec![], earlier: vec![], file_name: None, stdio_broken: None, outside_replace: None, outside_keeps_mtime: false, env_flip: vec![], pipe: false };
+    let w = World { program: Some(prog.clone()), dedup, keys, export_plan: Plan::default(), corruptions: vec![], import_plan: Plan::default(), via_lib: false, s5: None, raw_text: None, prior: vec![], earlier: vec![], file_name: None, stdio_broken: None, outside_replace: None, outside_keeps_mtime: false, env_flip: vec![], pipe: false, plain_build: false };
     seams::reset_world();
     let w2 = w.clone();
     run_party(keys, move || {
@@ -1378,6 +1462,7 @@ pub fn make_world(plan: &CasePlan, seed: u64, idx: u64) -> (World, &'static str,
         outside_keeps_mtime: false,
         env_flip: vec![],
         pipe: false,
+        plain_build: false,
     };
     // the file's name and the state of the process's stdout/stderr are dimensions of every family
     if family != "s5" && p.chance(1, 3) {
@@ -1504,7 +1589,7 @@ pub fn make_world(plan: &CasePlan, seed: u64, idx: u64) -> (World, &'static str,
             // exported (no input wire among the outputs) and is small enough to be swept completely.
             let mut chosen = None;
             for _ in 0..12 {
-                let cand = ProgSpec { name: "small".into(), src: gen::small_program(&mut p), consts: vec![] };
+                let cand = ProgSpec { name: "small".into(), src: if p.chance(1, 4) { gen::layout_program(&mut p) } else { gen::small_program(&mut p) }, consts: vec![] };
                 let ok = reference_export(&cand, dedup, keys).map(|(b, _, _)| b.len() <= 4096).unwrap_or(false);
                 chosen = Some(cand);
                 if ok {
@@ -1726,6 +1811,18 @@ pub fn replay_json(w: &World, f: &Finding, seed: u64, idx: Option<u64>) -> serde
 
 pub fn replay(v: &serde_json::Value) -> Result<Vec<Finding>, String> {
     let w: World = serde_json::from_value(v["world"].clone()).map_err(|e| format!("bad replay file: {e}"))?;
+    if w.plain_build {
+        let Some(prog) = &w.program else { return Ok(vec![]) };
+        let seedtag = tag(prog.src.as_str());
+        let keys = w.keys;
+        let (prog2, dedup) = (prog.clone(), w.dedup);
+        let subj = run_party(keys, move || prepared_subject(&prog2, dedup, keys, seedtag))?;
+        let mut c = BTreeMap::new();
+        return Ok(match (&subj.circuit, &subj.ref_bytes) {
+            (Some(c0), Some(refb)) => plain_roundtrip(c0, refb, seedtag, 0, &mut c),
+            _ => vec![],
+        });
+    }
     Ok(run_world(&w).findings)
 }
 
@@ -2034,6 +2131,24 @@ pub fn run_case(plan: &CasePlan, seed: u64, idx: u64) -> CaseResult {
         sample_summary = o.summary.clone();
         absorb(&o, &w, &mut acc);
     }
+    // an exporter + importer built with default cargo features in release mode (crate /verif/plain,
+    // mode `bristol`), on a real scratch file: same bytes as the fault-free export, function-equal import
+    if family != "large" {
+        if let Some(prog) = &w.program {
+            let seedtag = tag(prog.src.as_str());
+            let subj = prepared_subject(prog, w.dedup, w.keys, seedtag);
+            if let (Some(c), Some(refb)) = (&subj.circuit, &subj.ref_bytes) {
+                if c.gates.len() <= 20_000 {
+                    for f in plain_roundtrip(c, refb, seedtag, idx, &mut acc.counters) {
+                        if acc.seen.insert(f.signature.clone()) {
+                            let w2 = World { export_plan: Plan::default(), import_plan: Plan::default(), corruptions: vec![], prior: vec![], earlier: vec![], s5: None, raw_text: None, outside_replace: None, pipe: false, plain_build: true, ..w.clone() };
+                            acc.pending.push((w2, f, vec![]));
+                        }
+                    }
+                }
+            }
+        }
+    }
     // environment discovery: if the exporter / importer asked for environment variables or host
     // files, export and import the circuit once more in a fresh process in which they read
     // differently, with and without a working stdout/stderr
@@ -2064,7 +2179,7 @@ pub fn run_case(plan: &CasePlan, seed: u64, idx: u64) -> CaseResult {
     acc.d.u64(p.draws);
     let mut violations = vec![];
     for (fw, f, hist) in std::mem::take(&mut acc.pending) {
-        let (mw, mf) = if fw.env_flip.is_empty() { minimise(&fw, &f, &hist) } else { (fw.clone(), f.clone()) };
+        let (mw, mf) = if fw.env_flip.is_empty() && !fw.plain_build { minimise(&fw, &f, &hist) } else { (fw.clone(), f.clone()) };
         violations.push(Violation {
             property: "C11".into(),
             class: mf.class.clone(),
